@@ -52,6 +52,10 @@ var c08scenarios = []c08scenario{
 		c08invalidNote,           // queued id-less invalid member
 		"[" + peer.Req("", "i", "n3") + "," + peer.Req("3", "i", "c3") + "]",
 	}},
+	{name: "notebatch", steps: []string{
+		"[" + peer.Req("", "G", "n1") + "," + peer.Req("", "i", "n2") + "]", // the slow notification is not the last of its batch
+		"[" + peer.Req("", "i", "n3") + "," + peer.Req("", "G", "n4") + "," + peer.Req("", "G", "n5") + "]",
+	}},
 	{name: "callback", push: true, steps: []string{"@callback", peer.Req("1", "g", "c1")}},
 	{name: "mixed", push: true, steps: []string{
 		peer.Req("1", "g", "c1"), "@callback",
@@ -139,6 +143,14 @@ func c08exec(c *vt.Ctx, r c08run) (prof c08profile) {
 			log.Add("cause", "peerclose", "")
 			rig.Peer.CloseQuiet()
 		}
+		// WaitStatus is called as soon as the cause has been issued: it must not
+		// return while any handler is still running, however long that takes.
+		statusCh := make(chan jrpc2.ServerStatus, 1)
+		go func() {
+			st := rig.Srv.WaitStatus()
+			log.Add("waitstatus.ret", "", fmt.Sprintf("%+v", st))
+			statusCh <- st
+		}()
 		if !r.race {
 			rig.Settle()
 			log.Add("settled", "", "")
@@ -153,7 +165,14 @@ func c08exec(c *vt.Ctx, r c08run) (prof c08profile) {
 		rig.Settle()
 		log.Add("cause", "teardown-peerclose", "")
 		rig.Peer.CloseQuiet()
-		st, ok := rig.AwaitStatus()
+		rig.Settle()
+		var st jrpc2.ServerStatus
+		ok := false
+		select {
+		case st = <-statusCh:
+			ok = true
+		default:
+		}
 		s, rcv, _ := rig.End.Counts()
 		prof = c08profile{recvs: int(rcv), sends: int(s)}
 		if !ok {
@@ -293,8 +312,14 @@ func c08judge(c *vt.Ctx, r c08run, rig *peer.ServerRig, st jrpc2.ServerStatus, c
 		// Gates are opened only at teardown, i.e. after the first quiescent point
 		// that follows the stop cause (if the run had one): a call handler that
 		// was running when the cause occurred can only have left cancelled.
-		if tSettled < 1<<62 && !v.note && v.enter < tCause && v.exit > tCause && !strings.Contains(v.exitInfo, "ctxerr=context canceled") {
-			c.Failf("call handler %s was in flight when the server stopped but left with %s", tag, v.exitInfo)
+		if tSettled < 1<<62 && !v.note && tag != "again" && !strings.Contains(v.exitInfo, "ctxerr=context canceled") {
+			if v.enter < tCause && v.exit > tCause {
+				c.Failf("call handler %s was in flight when the server stopped but left with %s", tag, v.exitInfo)
+			} else if v.enter > tSettled {
+				// it started after a quiescent point that followed the stop: the server was
+				// long stopped, and the call had been received (dequeued) before
+				c.Failf("call handler %s was started (t=%d) on a stopped server (stop cause t=%d, quiescent at t=%d) with a live context and left with %s", tag, v.enter, tCause, tSettled, v.exitInfo)
+			}
 		}
 	}
 	// notifications received before the stop must have been handed to their handler
@@ -343,7 +368,7 @@ func init() {
 	vt.Register(&vt.Check{
 		Prop:  "C08",
 		Level: "fault_enumeration",
-		Rule: "scenarios {idle, one gated call, batches queued behind a parked notification incl. an invalid id-less member, outstanding callback, mixed} x stop cause {Stop(), peer close, and a failure injected at EVERY Recv and Send " +
+		Rule: "scenarios {idle, one gated call, batches queued behind a parked notification incl. an invalid id-less member, notification-only batches whose slow member is not the last, outstanding callback, mixed} x stop cause {Stop(), peer close, and a failure injected at EVERY Recv and Send " +
 			"the server performs in the scenario: error / io.EOF / closing error / final record + io.EOF / record + error / Send error} x channel whose Close does / does not unblock Recv x inbound record after the stop " +
 			"{none, valid call, valid notification, invalid notification, malformed, []} (settled or racing the stop) x restart on a fresh channel; plus delay-bounded schedules on the racing variants. " +
 			"distinct_nontrivial = distinct (scenario, cause@position, flavour, post-stop record, delay set) other than idle+Stop+none",
